@@ -378,6 +378,30 @@ func siteCase(c *core.Ctx, name string, files map[string]string, params []string
 				panic(err)
 			}
 			impl = strings.Split(t.Root().Comments()[0], "|")
+		case "eems":
+			// mutations.CountEEMs: the records kept per (site, parent, child), branch and child node name included
+			t := parseTree(files["tree"])
+			a := parseAlign(files["align"])
+			ml, err := mutations.CountEEMs(t, a)
+			if err != nil {
+				panic(err)
+			}
+			n, wf := core.Alpha(t) // after the call: the branch ids are those CountEEMs has set
+			if !wf.OK() {
+				panic("malformed")
+			}
+			params = []string{n.Dump()}
+			for _, nd := range t.Nodes() {
+				seq, ok := a.GetSequenceChar(nd.Name())
+				if !ok {
+					panic("no sequence for " + nd.Name())
+				}
+				entries = append(entries, []string{nd.Name(), string(seq)})
+			}
+			for k, m := range ml.Mutations {
+				impl = append(impl, fmt.Sprintf("%s %d %d %s %d", k, m.AlignmentSite, m.BranchIndex, m.ChildNodeName, m.NumEEM))
+			}
+			sort.Strings(impl)
 		case "chardist":
 			// CountMutations on a tree whose nodes are all named: per mutation record, the number of tips
 			// below and how many of them carry the child character (= the merged character distributions)
@@ -461,11 +485,13 @@ func siteCases(c *core.Ctx, in *inputs) {
 	siteCase(c, "rename", map[string]string{"tree": in.tree, "map": in.tips[0] + "\tsame\n" + in.tips[1] + "\tsame\n"}, nil) // two tips get one name: UpdateTipIndex refuses
 	siteCase(c, "asrtip", map[string]string{"tree": in.tree, "align": in.protein}, nil)
 	siteCase(c, "acralphabet", map[string]string{"states": in.states}, nil)
+	siteCase(c, "acralphabet", map[string]string{"states": in.statesCI}, nil)
 	siteCase(c, "nexusframe", map[string]string{"tree": in.multi}, []string{"translate"})
 	siteCase(c, "nexusframe", map[string]string{"tree": in.numeric}, []string{"translate"})
 	siteCase(c, "nexusframe", map[string]string{"tree": in.tree + "\n" + in.tree2 + "\n" + in.rooted2 + "\n"}, []string{"translate"})
 	siteCase(c, "nexusframe", map[string]string{"tree": in.multi}, []string{"plain"})
 	siteCase(c, "chardist", map[string]string{"tree": in.named, "align": in.anc}, nil)
+	siteCase(c, "eems", map[string]string{"tree": in.named, "align": in.anc}, nil)
 	{
 		// Append: key-disjoint maps, and maps sharing one or several keys
 		var mb, lb, lb2 strings.Builder
